@@ -104,7 +104,8 @@ func eventAssets(e flows.Event) []string {
 			for _, x := range t {
 				if xm, ok := x.(map[string]any); ok {
 					if u, _ := xm["uuid"].(string); u != "" {
-						out = append(out, ty+":"+u)
+						nm, _ := xm["name"].(string)
+						out = append(out, ty+":"+u+"|"+nm)
 					} else if k, _ := xm["key"].(string); k != "" {
 						out = append(out, ty+":"+k)
 					} else if em, _ := xm["email"].(string); em != "" {
@@ -198,9 +199,14 @@ func (in *inspector) lines(src string, sa flows.SessionAssets, s flows.Session, 
 				line.Observed.Results = append(line.Observed.Results, IObsResult{Key: utils.Snakify(m.Name), Category: m.Category, Name: m.Name, By: by})
 			}
 			for _, a := range eventAssets(e) {
+				nm := ""
+				if bar := strings.Index(a, "|"); bar >= 0 {
+					a, nm = a[:bar], a[bar+1:]
+				}
 				id := a[strings.Index(a, ":")+1:]
-				// only assets the definition names literally (fixed references) are in the property's scope
-				if !seenA[a] && id != "" && strings.Contains(raw, `"`+id+`"`) {
+				// only assets the definition names literally (fixed references: by their UUID / key, or - should the engine
+				// have resolved a fixed reference some other way - by their name) are in the property's scope
+				if !seenA[a] && id != "" && (strings.Contains(raw, `"`+id+`"`) || (nm != "" && strings.Contains(strings.ToLower(raw), `"name":`+strings.ToLower(string(mustJSON(nm)))))) {
 					seenA[a] = true
 					line.Observed.Assets = append(line.Observed.Assets, a)
 				}
